@@ -33,7 +33,29 @@ type vConcWorld struct {
 	chal  string // the pending sign-in challenge (base64url), stored by the begin request before the schedule starts
 }
 
-func newConcWorld(kind string) *vConcWorld {
+// newConcWorld sets a world up with a few requests of its own, one after another.  Other worlds of this process run
+// their schedules meanwhile; should anything shared between requests (process-wide state in the code under test) spoil
+// the set-up, it is tried again: the schedules are what is judged, and they show such sharing too.
+func newConcWorld(kind string) (g *vConcWorld) {
+	for try := 0; ; try++ {
+		func() {
+			defer func() {
+				if r := recover(); r != nil {
+					if try >= 4 {
+						panic(r)
+					}
+					g = nil
+				}
+			}()
+			g = newConcWorld1(kind)
+		}()
+		if g != nil {
+			return g
+		}
+	}
+}
+
+func newConcWorld1(kind string) *vConcWorld {
 	w := newWorld(vWorldOpts{CertCfg: []string{"password"}, WebUICfg: []string{"password"}, AdminUsers: []string{"root"}})
 	w.st.Config.Base.EnableLocalTOTP = true
 	w.st.remoteDBQueryTimeout = time.Hour // a statement held at the gate must not flip the read to the cache
@@ -129,7 +151,12 @@ func (g *vConcWorld) final() map[string]interface{} {
 	g.prim.sched = nil
 	g.prim.mu.Unlock()
 	p, _, _, err := g.w.st.LoadUserProfile("alice")
-	vMust(err)
+	unreadable := err != nil
+	if unreadable {
+		// what the store holds for alice is no profile any more: no order of the requests explains that
+		g.detail = append(g.detail, "stored profile unreadable: "+strings.ReplaceAll(err.Error(), "null", "nil"))
+		p = &userProfile{}
+	}
 	tok := func(present, enabled bool, name string) map[string]interface{} {
 		n := 0
 		if name == "renamed" {
@@ -149,7 +176,7 @@ func (g *vConcWorld) final() map[string]interface{} {
 	g.w.st.Mutex.Unlock()
 	return map[string]interface{}{"u2f": u, "totp": t, "pending": p.PendingTOTPSecret != nil, "regchal": p.RegistrationChallenge != nil,
 		"wchal": p.WebauthnSessionData != nil, "totpUsed": p.LastSuccessfullTOTPCounter > 0,
-		"botp": g.botpValue(p), "chal": chal}
+		"botp": map[bool]int{false: g.botpValue(p), true: 9}[unreadable], "chal": chal}
 }
 
 // runSchedule executes ops under the given prefix of choices (then lowest-id-first); returns results, the choices
